@@ -154,6 +154,13 @@ class Sem:
             ns['__eq__'] = lambda self_, other: getattr(other, '_vf_equal', False)
             ns['__hash__'] = lambda self_: 7
             ns['_vf_equal'] = True
+        if self.flavor == 'data-attributes':
+            # a semantics object also keeps data (counters, lists of what it has seen), some of it named like rules: a data attribute is not
+            # an action, and the rules without a method of their own still go to _default
+            for i, r in enumerate(self.rulenames):
+                if not self.has_method(r):
+                    key, val = [(safe_name(r), 0), ('_' + r, []), ('_' + r + '_', 'seen'), (safe_name(r), ('a',))][i % 4]
+                    ns.setdefault(key, val)
         return type('VfSem', (), ns)()
 
     def ref_actions(self, log):
@@ -436,7 +443,7 @@ def run_shard(sh, n):
                 plain.parse(start)
                 kind = rnd.choice(['identity', 'tagging', 'tagging', 'default_only', 'mixed', 'fail_on', 'fail_on', 'raise_on', 'raise_on'] + (['listing'] * 3 if listers else []))
                 semd = dict(kind=kind, target=None, exc=None, named=[nm for nm in names if rnd.random() < 0.5], shapes={},
-                            flavor=rnd.choice(['plain', 'plain', 'unhashable', 'equal', 'falsy']), listers=listers if kind == 'listing' else [])
+                            flavor=rnd.choice(['plain', 'plain', 'unhashable', 'equal', 'falsy', 'data-attributes']), listers=listers if kind == 'listing' else [])
                 for nm in names:
                     np_ = len(ruleinfo.get(nm, {}).get('params') or ())
                     opts = ['A', 'A', 'D'] + (['B'] if np_ >= 1 else []) + (['C'] if np_ == 2 else [])
